@@ -41,7 +41,8 @@ def main():
         own = [r for r in reports if ("rule=%s." % prop) in r]
         first = re.sub(r" at .*", "", own[0])[len("VIOLATION "):][:150] if own else "—"
         lines.append("| %s | %s | %s | `%s` |" % (sid, prop, ", ".join(fired or []), first))
-    open(os.path.join(ROOT, "README.md"), "w").write("\n".join(lines) + "\n")
+    if not sys.argv[1:]:            # the table is rewritten only by a run over all seeds
+        open(os.path.join(ROOT, "README.md"), "w").write("\n".join(lines) + "\n")
 
 
 if __name__ == "__main__":
